@@ -31,6 +31,7 @@ RULES = {
              "Convolution::rearrange copies kernels[f][c][h][w] to out[c][f][h][w] over the full ranges; backward uses both",
     "R01.11": "the element-wise activation derivatives used for delta = f'(pre) * upstream obey their definitions in every rank arm and are "
               "the derivatives of the forward functions (R07.1/R07.2/R07.3 re-run under this property)",
+    "R01.12": "the dense backward pass rests on Tensor::product (outer product), Tensor::transpose and Tensor::dot: R15.3 re-run under this property",
     "R01.10": "the helpers that reshape gradients between flat and CxHxW form (get_triple, flatten, get_flat) are row-major (R14.2 re-run)",
     "R01.8": "spatial backward prologue: derivative = activation.backward(output) and delta = hadamard3d(gradient, derivative, "
              "scale(loops)), with gradient/derivative reshaped by get_triple(self.outputs) and input by get_triple(self.inputs)",
@@ -588,7 +589,20 @@ def r11_activation_derivatives(ctx):
               "%d facts: every rank arm of the four differentiable activations computes its definition; backward is the derivative of forward" % len(sub.obligations))
 
 
+def r12_linear_algebra(ctx):
+    """dW = delta (x) input and dX = W^T delta rest on Tensor::product / transpose / dot (C15's R15.3 re-run under this property)"""
+    from . import c15
+    sub = type(ctx)(ctx.prop, ctx.facts)
+    sub.guard("R15.3", "linear-algebra", c15.linear_algebra, sub)
+    bad = [o for o in sub.obligations if o["status"] != "ok"]
+    for o in bad:
+        ctx.bad("R01.12", "linalg:" + o["instance"], o["key"].split("/", 3)[-1], o["where"], o["detail"])
+    ctx.check("R01.12", "linear-algebra", not bad and len(sub.obligations) >= 7, "linear-algebra-broken", "src/tensor.rs",
+              "%d facts: product is the outer product, dot the matrix-vector product, transpose swaps the axes" % len(sub.obligations))
+
+
 def run(ctx):
+    ctx.guard("R01.12", "linear-algebra", r12_linear_algebra, ctx)
     ctx.guard("R01.3", "kernel-helpers", r3_kernel_helpers, ctx)
     ctx.guard("R01.11", "activation-derivatives", r11_activation_derivatives, ctx)
     ctx.guard("R01.9", "scale-factors", r9, ctx)
